@@ -30,6 +30,15 @@ fn with_session<R>(f: impl FnOnce(&mut FuzzSession) -> R) -> R {
 
 fuzz_target!(|data: &[u8]| {
     with_session(|s| {
-        s.one(data);
+        // a panic of the HARNESS itself (outside its monitors) must not end the fuzzing process:
+        // it is counted and reported by the stage as a harness error, never as a violation
+        let r = std::panic::catch_unwind(std::panic::AssertUnwindSafe(|| {
+            s.one(data);
+        }));
+        if r.is_err() {
+            pvmon::rng::set_tape(None);
+            s.ctx.rec.count("harness_panics_in_fuzz_mode", 1);
+            s.ctx.rec.checkpoint();
+        }
     });
 });
